@@ -288,7 +288,7 @@ impl MapLife {
         for _ in 0..nfiles {
             files.push(match rng.below(20) {
                 0 => FileSpec::Missing,
-                1 if big => FileSpec::Sparse(*rng.pick(&[64u64 << 20, (64 << 20) + 4104, 1 << 30])),
+                1 | 4 if big => FileSpec::Sparse(*rng.pick(&[64u64 << 20, (64 << 20) + 4104, 1 << 30, 1 << 30])),
                 2 => FileSpec::Size(8 * rng.range(0, 5000)),
                 3 => FileSpec::Size(rng.range(1, 9000)),
                 _ => FileSpec::Size(*rng.pick(&sizes)),
@@ -299,7 +299,7 @@ impl MapLife {
         let mut slots = 0usize; // number of Map ops so far = number of slots (dead or alive)
         for _ in 0..nops {
             let op = match rng.below(10) {
-                0..=3 => { slots += 1; LOp::Map { file: rng.below_usize(nfiles), mutable: rng.chance(2, 5), refuse: if rng.chance(1, 8) { Some(*rng.pick(&[libc::ENOMEM, libc::EAGAIN, libc::ENFILE, libc::EACCES, libc::ENODEV, libc::EINVAL])) } else { None } } },
+                0..=3 => { slots += 1; LOp::Map { file: rng.below_usize(nfiles), mutable: rng.chance(2, 5), refuse: if rng.chance(1, 8) { Some(*rng.pick(&[libc::ENOMEM, libc::EAGAIN, libc::ENFILE, libc::EACCES, libc::ENODEV, libc::EINVAL])) } else if big && rng.chance(1, 8) { Some(-1) } else { None } } },
                 4 | 5 if slots > 0 => LOp::Read { slot: rng.below_usize(slots) },
                 6 if slots > 0 => LOp::Write { slot: rng.below_usize(slots), n: rng.range_usize(1, 40), salt: rng.next() & 0xFFFF },
                 _ if slots > 0 => LOp::Drop { slot: rng.below_usize(slots) },
@@ -352,7 +352,9 @@ impl MapLife {
                 if live.is_empty() && mapped != 0 {
                     return Err(v("still-mapped-after-drop", "MemoryMap::drop", format!("after {}: no map of file {} ({:?}) is alive, but {} bytes of it are still mapped in {} region(s)", step, fi, self.files[fi], mapped, regions.len())));
                 }
-                if mapped != want {
+                // A live map of an empty file may legitimately hold a page (an implementation may map one byte).
+                let slack: usize = live.iter().filter(|l| l.map.len() == 0).count() * page();
+                if mapped < want || mapped > want + slack {
                     return Err(v("mapped-bytes", "MemoryMap", format!("after {}: {} live map(s) of file {} ({:?}) should cover {} bytes, /proc/self/maps shows {} bytes", step, live.len(), fi, self.files[fi], want, mapped)));
                 }
                 for l in live.iter() {
@@ -402,16 +404,20 @@ impl MapLife {
             match op {
                 LOp::Map { file, mutable, refuse } => {
                     let mode = if *mutable { MappingMode::Mutable } else { MappingMode::ReadOnly };
-                    if let Some(errno) = refuse { verif_io::fail_mmap_after(Some((0, *errno))); }
+                    // refuse = Some(-1): a real refusal by the kernel, provoked with RLIMIT_AS; otherwise the hook refuses with that errno.
+                    let mut _as_limit: Option<AsLimit> = None;
+                    match refuse { Some(-1) => { _as_limit = Some(AsLimit::set(64 << 20)); }, Some(errno) => verif_io::fail_mmap_after(Some((0, *errno))), None => {} }
                     verif_io::start_map_log();
                     let r = catch(|| MemoryMap::new(&paths[*file], mode));
                     let log = verif_io::take_map_log();
                     verif_io::fail_mmap_after(None);
+                    drop(_as_limit);
                     let r = r.map_err(|p| v("map-panic", "MemoryMap::new", format!("{}: {}", step, p)))?;
                     let size = size_of(*file);
                     let refused = log.iter().any(|c| matches!(c, MapCall::Refused { .. }));
                     let kernel_failed = log.iter().any(|c| matches!(c, MapCall::Map { addr, .. } if *addr == usize::MAX));
                     if refused { stats.fault("M1-mmap-refused", 1); }
+                    if kernel_failed && *refuse == Some(-1) { stats.fault("M1-mmap-refused (real kernel, RLIMIT_AS)", 1); }
                     let must_fail = match size { None => Some("the file does not exist"), Some(n) if n % 8 != 0 => Some("the file size is not a multiple of 8"), _ if refused => Some("mmap() was refused"), _ if kernel_failed => Some("mmap() returned MAP_FAILED"), _ => None };
                     match size { None => stats.fault("M3-missing-file", 1), Some(0) => stats.fault("M2-empty-file", 1), Some(n) if n % 8 != 0 => stats.fault("M4-odd-size", 1), _ => {} }
                     match (r, must_fail) {
@@ -541,6 +547,32 @@ impl MapLife {
             }
         }
         out
+    }
+}
+
+/// Caps the address space of this process at its current size plus `slack` bytes; restores the
+/// limit when dropped. Small allocations keep working, a large mapping is refused with ENOMEM.
+struct AsLimit {
+    old: libc::rlimit,
+}
+
+impl AsLimit {
+    fn set(slack: u64) -> AsLimit {
+        let pages: u64 = std::fs::read_to_string("/proc/self/statm").ok().and_then(|t| t.split_whitespace().next().and_then(|x| x.parse().ok())).unwrap_or(1 << 20);
+        unsafe {
+            let mut old = libc::rlimit { rlim_cur: 0, rlim_max: 0 };
+            libc::getrlimit(libc::RLIMIT_AS, &mut old);
+            let want = (pages * 4096 + slack) as libc::rlim_t;
+            let new = libc::rlimit { rlim_cur: want.min(old.rlim_max), rlim_max: old.rlim_max };
+            libc::setrlimit(libc::RLIMIT_AS, &new);
+            AsLimit { old }
+        }
+    }
+}
+
+impl Drop for AsLimit {
+    fn drop(&mut self) {
+        unsafe { libc::setrlimit(libc::RLIMIT_AS, &self.old); }
     }
 }
 
